@@ -381,7 +381,7 @@ func c10x5(c *Ctx) {
 		}, 0)
 		for _, s := range u.Match(an.Return().Where("remove", retIs("true"))) {
 			// stale generation: version set, long past, and the meta is gone or names another generation
-			r.GuardSite("C10-X5", u, s, c.W.Parse("ver != 0 && !(int64(ver) + rockredis.lazyCleanExpired.Nanoseconds() >= ts * 1000000000) && (metav == nil || h_2.ValueVersion != ver)"),
+			r.GuardSite("C10-X5", u, s, c.W.Parse("ver != 0 && !(ver + rockredis.lazyCleanExpired.Nanoseconds() >= ts * 1000000000) && (metav == nil || h_2.ValueVersion != ver)"),
 				"stale generation long past its time and superseded")
 		}
 		r.Min("C10-X5", len(u.Match(an.Return().Where("remove", retIs("true")))), 2, "Filter: removal returns")
